@@ -37,6 +37,9 @@ pub enum Op {
         host: bool,
     },
     Advance { ms: u64 },
+    /// Another client of the same daemon does something unrelated: 0 browses a foreign type, 1 stops
+    /// that browse, 2 searches for a foreign host name, 3 reads the metrics.
+    Other { what: u8 },
     /// PTR query for the type of service i on every interface.
     Query { i: usize },
     Shutdown,
@@ -238,6 +241,25 @@ pub fn check(case: &Case, ctx: &mut CaseCtx) {
             }
             Op::Advance { ms } => {
                 w.advance(*ms);
+            }
+            Op::Other { what } => {
+                let now = w.now;
+                let dm = &mut w.daemons[di];
+                dm.set_now(now);
+                match what % 4 {
+                    0 => {
+                        let _ = dm.browse("_elsewhere._udp.local.");
+                    }
+                    1 => {
+                        let _ = dm.stop_browse("_elsewhere._udp.local.");
+                    }
+                    2 => {
+                        let _ = dm.resolve_hostname("somebody-else.local.", Some(3000));
+                    }
+                    _ => {
+                        let _ = dm.metrics();
+                    }
+                }
             }
             Op::Query { i } => {
                 let i = *i % n;
@@ -541,6 +563,7 @@ pub fn strategy() -> BoxedStrategy<Case> {
         2 => (0usize..3, proptest::option::weighted(0.3, 0usize..3)).prop_map(|(i, only_if)| Op::Conflict { i, only_if, host: true }),
         8 => prop_oneof![1 => Just(0u64), 1 => Just(100), 1 => Just(120), 1 => Just(250), 2 => Just(760), 3 => Just(1000), 3 => Just(2000), 2 => Just(5500), 2 => 0u64..2500].prop_map(|ms| Op::Advance { ms }),
         2 => (0usize..3).prop_map(|i| Op::Query { i }),
+        2 => (0u8..4).prop_map(|what| Op::Other { what }),
         1 => Just(Op::Shutdown),
     ];
     (
